@@ -454,6 +454,110 @@ def run(ctx: Any) -> None:
             with opener(scfg, ccfg) as (proxy, rec, closer):
                 return sv.run_script(proxy, rec, script, closer=closer)
 
+        def first_exception(prog: dict[str, Any]) -> tuple[int, str, int] | None:
+            for si, st in enumerate(prog.get("steps", [])):
+                for where in ("pre", "post"):
+                    for li, l in enumerate(st[where]):
+                        if l[0] == "EXCEPTION":
+                            return si, where, li
+            return None
+
+        def is_subseq(small: list[Any], big: list[Any]) -> list[Any] | None:
+            """big minus small (as an ordered subsequence removal), or None when small is not a subsequence of big."""
+            extra, k = [], 0
+            for x in big:
+                if k < len(small) and x == small[k]:
+                    k += 1
+                else:
+                    extra.append(x)
+            return extra if k == len(small) else None
+
+        def judge(tname: str, kind: str, prog: dict[str, Any], script: list[Any], thr: int, comp: Any, base: list[Any], ev: list[Any], externalised: int) -> None:
+            pb, pe = proj(base), proj(ev)
+            if pe == pb:
+                return
+            repl = {"transport": tname, "program": prog, "script": script, "threshold": thr, "compression": comp,
+                    "inline_trace": base, "externalised_trace": ev, "objects_uploaded": externalised}
+            post_msgs = {l[1] for st in prog.get("steps", []) for l in st["post"]}
+
+            def strip(logs: list[Any]) -> list[Any]:
+                return [l for l in logs if l[1] not in post_msgs]
+
+            if (tname == "http" and script[0] == "exchange" and pb["terminal"] is None and strip(pe["logs"]) == strip(pb["logs"]) and len(pe["logs"]) > len(pb["logs"])
+                    and pe["values"] == pb["values"][: len(pe["values"])] and (pe["terminal"] is None or pe["terminal"][2] in post_msgs)):
+                ctx.violation(
+                    "http-exchange-batches-after-the-data-batch-reach-the-client-only-when-externalised",
+                    "over HTTP an exchange response is read up to its data batch: logs (and an EXCEPTION-level log) the method emits after the data batch "
+                    "are dropped inline, but are dispatched (and raised) when the cycle is externalised, because the whole cycle sits in the external object",
+                    repl)
+                return
+            # An externalised cycle that contains an EXCEPTION-level log (at ANY position): the resolver raises at that item, so the
+            # externalised route delivers exactly what precedes it; the inline route may deliver more (the data batch when the log
+            # follows it; later logs through the socket drain).  The externalised trace is demanded EXACTLY, from the program.
+            fe = first_exception(prog)
+            if fe is not None and externalised > 0 and kind != "unary":
+                si, where, li = fe
+                st = prog["steps"][si]
+                if 8 * st["emit"]["rows"] >= thr:
+                    def ev_log(l: list[Any]) -> list[Any]:
+                        return [l[0], l[1], dict(l[2] or {})]
+
+                    before = list(prog.get("init_logs") or [])
+                    for t in prog["steps"][:si]:
+                        before += t["pre"] + t["post"]
+                    before += st["pre"][:li] if where == "pre" else st["pre"] + st["post"][:li]
+                    after_msgs = {l[1] for l in (st["pre"][li + 1:] + st["post"] if where == "pre" else st["post"][li + 1:])}
+                    for t in prog["steps"][si + 1:]:
+                        after_msgs |= {l[1] for l in t["pre"] + t["post"]}
+                    n_vals = (1 if sv.HAS_HEADER.get(script[1], False) else 0) + si
+                    err = ["error", "EXCEPTION", st[where][li][1]]
+                    ext_exact = (pe["logs"] == [ev_log(l) for l in before] and pe["terminal"] == err and not pe["done"]
+                                 and len(pe["values"]) == n_vals and pe["values"] == pb["values"][:n_vals])
+                    extra_logs = is_subseq(pe["logs"], pb["logs"])
+                    extra_vals = pb["values"][n_vals:]
+                    inline_superset = (extra_logs is not None and all(l[1] in after_msgs for l in extra_logs) and pb["terminal"] in (None, err)
+                                       and all(v[0] == "batch" for v in extra_vals))
+                    if ext_exact and inline_superset and (extra_logs or extra_vals):
+                        if where == "post" and extra_vals:
+                            ctx.violation(
+                                "exception-log-after-data-drops-the-externalised-batch",
+                                "a cycle that emits a data batch and then an EXCEPTION-level client log delivers the batch and then the error inline, "
+                                "but only the error when the cycle is externalised (the whole cycle is in the external object and "
+                                "_fetch_and_resolve raises before returning the batch); what the inline run delivers after that point is lost too", repl)
+                        else:
+                            ctx.violation(
+                                "exception-log-in-externalised-cycle-drops-later-items",
+                                "a cycle containing an EXCEPTION-level client log: inline, items queued after that log in the same call (later logs) are still "
+                                "dispatched before the error surfaces; externalised, the whole cycle is in the external object and _fetch_and_resolve raises at "
+                                "the EXCEPTION item, so everything after it is dropped", repl)
+                        return
+            ctx.violation("externalised-delivery-differs-from-inline", "logs / values / terminal error differ from inline delivery", repl)
+
+        # fixed scenarios (every tier, every seed): the three listed shapes reproduce deterministically
+        fixed = [
+            ("pipe", sv.open_pipe, "producer", ["iterate", "producer"], {"init_logs": [], "header": None, "steps": [
+                {"pre": [["TRACE", "f1", None], ["EXCEPTION", "app-raised-before-emit", None]], "emit": {"rows": 0, "meta": None}, "post": [["INFO", "f2", {"e": "1"}]], "finish": False},
+                {"pre": [], "emit": {"rows": 3, "meta": None}, "post": [], "finish": False}]}),
+            ("pipe", sv.open_pipe, "producer", ["iterate", "producer"], {"init_logs": [], "header": None, "steps": [
+                {"pre": [["INFO", "f3", None]], "emit": {"rows": 4, "meta": None}, "post": [["EXCEPTION", "app-raised-after-emit", None]], "finish": False}]}),
+            ("http", sv.open_http, "exchange", ["exchange", "exchange"], {"init_logs": [], "header": None, "steps": [
+                {"pre": [], "emit": {"rows": 2, "meta": None}, "post": [["WARN", "f4", None]], "finish": False}]}),
+        ]
+        for tname, opener, kind, sc, prog in fixed:
+            pid += 1
+            sv.PROGRAMS[pid] = prog
+            script = sc + [pid] + ([1] if sc[0] == "exchange" else [])
+            base = run_e2e(opener, None, None, script)
+            scfg = sv.make_config(store, 0, None)
+            cfgs.append(scfg)
+            n0 = store.object_count()
+            ev = run_e2e(opener, scfg, scfg, script)
+            externalised = store.object_count() - n0
+            e2e_pairs += 1
+            ctx.count("impl_runs", 2)
+            ctx.case(["e2e-fixed", tname, prog, script], nontrivial=True)
+            judge(tname, kind, prog, script, 0, None, base, ev, externalised)
+
         n_prog = 10 if quick else 30
         for pi in range(n_prog):
             kind = ["unary", "producer", "producer_h", "exchange", "exchange_h"][pi % 5]
@@ -491,31 +595,7 @@ def run(ctx: Any) -> None:
                     ctx.count("impl_runs", 2)
                     ctx.tally("e2e", f"{tname}:{kind}:{'ext' if externalised else 'inline'}:{comp}")
                     ctx.case(["e2e", tname, prog, script, thr, comp], nontrivial=externalised > 0)
-                    if pe != pb:
-                        repl = {"transport": tname, "program": prog, "script": script, "threshold": thr, "compression": comp,
-                                "inline_trace": base, "externalised_trace": ev, "objects_uploaded": externalised}
-                        exc_err = ["error", "EXCEPTION", "app-raised-after-emit"]
-                        strict_prefix = len(pe["values"]) < len(pb["values"]) and pb["values"][: len(pe["values"])] == pe["values"]
-                        post_msgs = {l[1] for st in prog.get("steps", []) for l in st["post"]}
-
-                        def strip(logs: list[Any]) -> list[Any]:
-                            return [l for l in logs if l[1] not in post_msgs]
-
-                        if (tname == "http" and script[0] == "exchange" and pb["terminal"] is None and strip(pe["logs"]) == strip(pb["logs"]) and len(pe["logs"]) > len(pb["logs"])
-                                and pe["values"] == pb["values"][: len(pe["values"])] and (pe["terminal"] is None or pe["terminal"][2] in post_msgs)):
-                            ctx.violation(
-                                "http-exchange-batches-after-the-data-batch-reach-the-client-only-when-externalised",
-                                "over HTTP an exchange response is read up to its data batch: logs (and an EXCEPTION-level log) the method emits after the data batch "
-                                "are dropped inline, but are dispatched (and raised) when the cycle is externalised, because the whole cycle sits in the external object",
-                                repl)
-                        elif exc_after and pe["logs"] == pb["logs"][: len(pe["logs"])] and strict_prefix and pe["terminal"] == exc_err and pb["terminal"] in (None, exc_err):
-                            ctx.violation(
-                                "exception-log-after-data-drops-the-externalised-batch",
-                                "a cycle that emits a data batch and then an EXCEPTION-level client log delivers the batch and then the error inline, "
-                                "but only the error when the cycle is externalised (the whole cycle is in the external object and "
-                                "_fetch_and_resolve raises before returning the batch); what the inline run delivers after that point is lost too", repl)
-                        else:
-                            ctx.violation("externalised-delivery-differs-from-inline", "logs / values / terminal error differ from inline delivery", repl)
+                    judge(tname, kind, prog, script, thr, comp, base, ev, externalised)
         ctx.sample({"e2e": "program x {pipe,http} x thresholds x compression; inline trace vs externalised trace (projections)"})
 
         # ---- end to end under storage-side corruption: nothing corrupt reaches the application ----
